@@ -529,6 +529,9 @@ func runSched(sc kit.Scenario, out *kit.Out) error {
 
 func main() {
 	kit.Main(func(scs []kit.Scenario, out *kit.Out) error {
+		if settle.ShouldChunk(scs) {
+			return settle.Chunked(scs, out)
+		}
 		for _, sc := range scs {
 			var err error
 			if kit.Str(sc.Par, "mode") == "sched" {
